@@ -28,4 +28,4 @@ for p in "$@"; do
   echo "== $p exit=$code ($((e-s))s)"
   echo "$out" | grep -E "^violation|^KNOWN|harness|nondeterminism|trouble" | cut -c1-300 | head -6
 done
-rm -rf /tmp/vcheck-alt-replays /tmp/vcheck-alt-evidence /tmp/evalseed-demo.$$
+[ -n "${KEEP_ALT:-}" ] || rm -rf /tmp/vcheck-alt-replays /tmp/vcheck-alt-evidence; rm -f /tmp/evalseed-demo.$$
